@@ -135,11 +135,111 @@ theorem surfaceLinkError_cls (s : St) (c : Card) (x : Cls) (h : surfaceLinkError
     all_goals first | (cases h; rfl) | cases h
   all_goals cases h
 
-theorem dataLinkError_cls (s : St) (c : Card) (x : Cls) (h : dataLinkError s c = some x) : x = .MalformedInputError := by
-  cases c <;> simp only [dataLinkError] at h
-  case material => split at h <;> first | (cases h; rfl) | cases h
-  case thermal => split at h <;> first | (cases h; rfl) | cases h
-  all_goals cases h
+/-! ### the data loop: what its events are, that they only grow, that the snapshot loop visits every input -/
+
+def isDataEv (e : Region × Cls) : Prop := e = (Region.uipDataLoop, Cls.MalformedInputError)
+
+theorem matScan_inv (mid n : Nat) (snap : List (Nat × Card)) : ∀ (st : DSt),
+    (matScan mid n snap st).visited = st.visited
+    ∧ (∀ e ∈ st.events, e ∈ (matScan mid n snap st).events)
+    ∧ ((∀ e ∈ st.events, isDataEv e) → ∀ e ∈ (matScan mid n snap st).events, isDataEv e)
+    ∧ (∀ y ∈ (matScan mid n snap st).live, y ∈ st.live) := by
+  induction snap with
+  | nil => intro st; simp [matScan]
+  | cons x rest ih =>
+    intro st
+    obtain ⟨j, c⟩ := x
+    cases c with
+    | thermal m =>
+      simp only [matScan]
+      split
+      · split
+        · refine ⟨rfl, fun e he => by simp [he], fun h e he => ?_, fun y hy => hy⟩
+          simp only [List.mem_append, List.mem_cons, List.not_mem_nil, or_false] at he
+          rcases he with he | he
+          · exact h e he
+          · exact he
+        · obtain ⟨h1, h2, h3, h4⟩ := ih { st with hasLaw := st.hasLaw ++ [mid], live := st.live.filter (fun x => x.1 != j) }
+          exact ⟨h1, h2, h3, fun y hy => (List.mem_filter.mp (h4 y hy)).1⟩
+      · exact ih st
+    | _ => simp only [matScan]; exact ih st
+
+theorem visit_inv (st : DSt) (x : Nat × Card) :
+    (visit st x).visited = st.visited ++ [x.1]
+    ∧ (∀ e ∈ st.events, e ∈ (visit st x).events)
+    ∧ ((∀ e ∈ st.events, isDataEv e) → ∀ e ∈ (visit st x).events, isDataEv e)
+    ∧ (∀ y ∈ (visit st x).live, y ∈ st.live) := by
+  obtain ⟨i, c⟩ := x
+  cases c with
+  | material n =>
+    simp only [visit]
+    obtain ⟨h1, h2, h3, h4⟩ := matScan_inv i n st.live { st with visited := st.visited ++ [i] }
+    exact ⟨h1, h2, h3, h4⟩
+  | thermal n =>
+    simp only [visit]
+    split
+    · exact ⟨rfl, fun e he => he, fun h => h, fun y hy => hy⟩
+    · refine ⟨rfl, fun e he => by simp [he], fun h e he => ?_, fun y hy => hy⟩
+      simp only [List.mem_append, List.mem_cons, List.not_mem_nil, or_false] at he
+      rcases he with he | he
+      · exact h e he
+      · exact he
+  | _ => exact ⟨rfl, fun e he => he, fun h => h, fun y hy => hy⟩
+
+theorem foldVisit_inv (xs : List (Nat × Card)) : ∀ (st : DSt),
+    (xs.foldl visit st).visited = st.visited ++ xs.map (·.1)
+    ∧ (∀ e ∈ st.events, e ∈ (xs.foldl visit st).events)
+    ∧ ((∀ e ∈ st.events, isDataEv e) → ∀ e ∈ (xs.foldl visit st).events, isDataEv e)
+    ∧ (∀ y ∈ (xs.foldl visit st).live, y ∈ st.live) := by
+  induction xs with
+  | nil => intro st; simp
+  | cons x rest ih =>
+    intro st
+    obtain ⟨v1, v2, v3, v4⟩ := visit_inv st x
+    obtain ⟨h1, h2, h3, h4⟩ := ih (visit st x)
+    simp only [List.foldl_cons]
+    refine ⟨by rw [h1, v1]; simp, fun e he => h2 e (v2 e he), fun h => h3 (v3 h), fun y hy => v4 y (h4 y hy)⟩
+
+theorem dataLoopEvents_cls (data : List Card) : ∀ e ∈ dataLoopEvents data, isDataEv e := by
+  unfold dataLoopEvents linkDataSnapshot
+  exact (foldVisit_inv (indexed data) { live := indexed data }).2.2.1 (by simp)
+
+theorem indexed_mem (data : List Card) (c : Card) (h : c ∈ data) : ∃ i, (i, c) ∈ indexed data := by
+  obtain ⟨i, hi, rfl⟩ := List.mem_iff_getElem.mp h
+  refine ⟨i, ?_⟩
+  unfold indexed
+  rw [List.mem_iff_getElem]
+  refine ⟨i, by simp [hi], ?_⟩
+  simp
+
+theorem indexed_snd (data : List Card) : ∀ y ∈ indexed data, y.2 ∈ data := by
+  intro y hy
+  unfold indexed at hy
+  exact (List.of_mem_zip hy).2
+
+/-- a dangling MT is reported wherever it stands in the snapshot, whatever was visited before it -/
+theorem foldVisit_dangling (data : List Card) (n : Nat) (hno : Card.material n ∉ data) (xs : List (Nat × Card)) :
+    ∀ (st : DSt), (∀ y ∈ st.live, y.2 ∈ data) → (∃ i, (i, Card.thermal n) ∈ xs) →
+      (Region.uipDataLoop, Cls.MalformedInputError) ∈ (xs.foldl visit st).events := by
+  induction xs with
+  | nil => intro st _ h; obtain ⟨i, hi⟩ := h; simp at hi
+  | cons x rest ih =>
+    intro st hlive h
+    obtain ⟨i, hi⟩ := h
+    simp only [List.foldl_cons]
+    have hlive' : ∀ y ∈ (visit st x).live, y.2 ∈ data := fun y hy => hlive y ((visit_inv st x).2.2.2 y hy)
+    rcases List.mem_cons.mp hi with rfl | hi
+    · apply (foldVisit_inv rest (visit st (i, .thermal n))).2.1
+      simp only [visit]
+      have : (st.live.any fun y => y.2 == Card.material n) = false := by
+        rw [List.any_eq_false]
+        intro y hy hc
+        have := hlive y hy
+        simp only [beq_iff_eq] at hc
+        rw [hc] at this
+        exact hno this
+      simp [this]
+    · exact ih (visit st x) hlive' ⟨i, hi⟩
 
 theorem linkEvents_handled (s : St) : ∀ e ∈ linkEvents s, handled e.1 e.2 = true := by
   intro e he
@@ -184,9 +284,9 @@ theorem linkEvents_handled (s : St) : ∀ e ∈ linkEvents s, handled e.1 e.2 = 
   · refine key _ _ _ ?_ e he
     intro c x hx
     rw [surfaceLinkError_cls s c x hx]; decide
-  · refine key _ _ _ ?_ e he
-    intro c x hx
-    rw [dataLinkError_cls s c x hx]; decide
+  · have := dataLoopEvents_cls s.data e he
+    unfold isDataEv at this
+    subst this; decide
 
 /-- check mode over handled events returns, adding one warning per event, in order -/
 theorem linkRun_check (evs : List (Region × Cls)) : ∀ (s : St), (∀ e ∈ evs, handled e.1 e.2 = true) →
@@ -524,12 +624,11 @@ theorem C13_link_errors (s : St) :
     left; right
     exact some_of _ _ _ _ _ hmem hx
   · intro n hmem hno
-    have hc : s.data.contains (.material n) = false := by simpa using hno
-    have hx : dataLinkError s (.thermal n) = some .MalformedInputError := by
-      simp only [dataLinkError, hc]; rfl
     simp only [linkEvents, List.mem_append]
     right
-    exact some_of _ _ _ _ _ hmem hx
+    unfold dataLoopEvents linkDataSnapshot
+    exact foldVisit_dangling s.data n hno (indexed s.data) { live := indexed s.data } (indexed_snd s.data)
+      (indexed_mem s.data _ hmem)
   · intro h
     simp only [linkEvents, List.mem_append]
     left; left; left; left; left
@@ -573,7 +672,9 @@ theorem C13_link_errors (s : St) :
       · simp at hk; subst hk; right; rfl
       · simp at hk
     · exact key _ _ _ (fun c x hx => Or.inl (surfaceLinkError_cls s c x hx)) e he
-    · exact key _ _ _ (fun c x hx => Or.inr (dataLinkError_cls s c x hx)) e he
+    · have := dataLoopEvents_cls s.data e he
+      unfold isDataEv at this
+      subst this; right; rfl
 
 example : (Region.cellsCellLoop, Cls.BrokenObjectLinkError) ∈
     linkEvents { cells := [.cell 1 0 [7] [] []], surfaces := [.surface 1 none none] } := by decide
@@ -590,6 +691,53 @@ theorem C13_link_first (s : St) :
     rw [h]
     simp only at hh
     simp [linkRun, outcome, hh]
+
+/-! ### the loop over the data inputs visits every input, whatever the order of the cards -/
+
+/-- **C13_link_visits_all.** With the loop of `__update_internal_pointers` running over a snapshot of
+    `self._data_inputs` (as the source has it: `for input in list(self._data_inputs)`), `update_pointers` runs for
+    EVERY data input EXACTLY ONCE, in file order, whatever the order of the cards and however many MT inputs the
+    materials remove from the list on the way; so an MT input without a material is reported wherever it stands. -/
+theorem C13_link_visits_all (data : List Card) :
+    (linkDataSnapshot data).visited = List.range data.length
+    ∧ (∀ n, Card.thermal n ∈ data → Card.material n ∉ data →
+        (Region.uipDataLoop, Cls.MalformedInputError) ∈ dataLoopEvents data) := by
+  constructor
+  · unfold linkDataSnapshot
+    rw [(foldVisit_inv (indexed data) { live := indexed data }).1]
+    simp only [List.nil_append]
+    unfold indexed
+    have : (List.range data.length).length ≤ data.length := by simp
+    exact List.map_fst_zip this
+  · intro n hmem hno
+    unfold dataLoopEvents linkDataSnapshot
+    exact foldVisit_dangling data n hno (indexed data) { live := indexed data } (indexed_snd data) (indexed_mem data _ hmem)
+
+/-- **C13_link_live_skips.** Why the snapshot matters: the same loop over the list itself (`for input in
+    self._data_inputs`, Python's list iterator on a list that shrinks) skips the input after a material that removed
+    an MT written before it — `mt1, m1, mt7, m2`: `mt7` (no material 7) is never visited and nothing is reported. -/
+theorem C13_link_live_skips :
+    (linkDataLive [.thermal 1, .material 1, .thermal 7, .material 2]).visited = [0, 1, 3]
+    ∧ (linkDataLive [.thermal 1, .material 1, .thermal 7, .material 2]).events = []
+    ∧ (linkDataSnapshot [.thermal 1, .material 1, .thermal 7, .material 2]).visited = [0, 1, 2, 3]
+    ∧ dataLoopEvents [.thermal 1, .material 1, .thermal 7, .material 2] = [(.uipDataLoop, .MalformedInputError)] := by
+  decide
+
+/-- the cards of a behaviour probe (`Gen.Errors.probeDataLoop`: kind 0 = M, 1 = MT, 2 = other) -/
+def probeCard : Nat × Nat → Card
+  | (0, n) => .material n
+  | (1, n) => .thermal n
+  | _ => .other
+
+/-- **C13_link_probe.** The model's data loop agrees with the BEHAVIOUR of the working tree: for every probe problem
+    the translator linked just now (every order of `mt1, m1, mt7, m2` and three orders with a duplicated MT, in check
+    mode) the number of MalformedInputError warnings is the model's.  A loop that no longer visits every input (the
+    list iterated while it shrinks) changes the recorded numbers and this obligation fails. -/
+theorem C13_link_probe :
+    ∀ p ∈ probeDataLoop, (dataLoopEvents (p.1.map probeCard)).length = p.2 := by
+  decide
+
+example : probeDataLoop.length ≥ 24 ∧ (∃ p ∈ probeDataLoop, p.2 = 2) := by decide
 
 /-! ### what can come out is documented -/
 
